@@ -420,7 +420,7 @@ func streamC06(emit func(Case), r *lib.Rng, full bool) {
 	if on("edit") {
 		n := 70
 		if full {
-			n = 1200
+			n = 350
 		}
 		valid := validTexts(n)
 		rep.Count("c06.valid_texts", int64(len(valid)))
@@ -450,7 +450,7 @@ func streamC06(emit func(Case), r *lib.Rng, full bool) {
 	if on("rand") {
 		n := 40000
 		if full {
-			n = 600000
+			n = 300000
 		}
 		for i := 0; i < n; i++ {
 			l := r.Intn(65)
